@@ -136,6 +136,27 @@ func mergeToWriter(segments []*SegmentBase, drops []*roaring.Bitmap,
 		"numDocs":    numDocs,
 	}
 
+	if numDocs == 0 {
+		// nothing survives: every document of every input is dropped
+		newDocNums = make([][]uint64, len(segments))
+		for segI, segment := range segments {
+			newDocNums[segI] = make([]uint64, segment.numDocs)
+			for docNum := range newDocNums[segI] {
+				newDocNums[segI][docNum] = docDropped
+			}
+			if len(segment.fieldsInv) > 0 && cr.Count() == 0 {
+				// offset 0 means "absent" throughout the file format (stored
+				// data normally comes first), so with no stored data keep
+				// the first field record away from it, otherwise the loader
+				// would not see the _id field of the merged segment.
+				_, err = cr.Write([]byte{0})
+				if err != nil {
+					return nil, 0, 0, nil, nil, 0, err
+				}
+			}
+		}
+	}
+
 	if numDocs > 0 {
 		storedIndexOffset, newDocNums, err = mergeStoredAndRemap(segments, drops,
 			fieldsMap, fieldsInv, fieldsSame, numDocs, cr, closeCh)
